@@ -270,10 +270,15 @@ func (cr *ChunkReader) parseAndRemoveChunkInfo(p []byte) (int, error) {
 		// read the body to its end: the readers underneath verify the request
 		// signature (and digests) only when they see the end of the stream
 		if !cr.isEOF {
-			if _, err := io.Copy(io.Discard, cr.r); err != nil {
+			rest, err := io.Copy(io.Discard, cr.r)
+			if err != nil {
 				return 0, err
 			}
 			cr.isEOF = true
+			if rest > 0 {
+				// bytes after the end of the chunked stream
+				return 0, errInvalidChunkFormat
+			}
 		}
 
 		return 0, io.EOF
@@ -440,6 +445,10 @@ func (cr *ChunkReader) parseChunkHeaderBytes(header []byte, l *int) (int64, stri
 		err = readAndSkip(rdr, '\n', '\r', '\n')
 		if err != nil {
 			return cr.handleRdrErr(err, header)
+		}
+		// and nothing else: the stream ends here
+		if _, err := rdr.ReadByte(); err == nil {
+			return 0, "", 0, errInvalidChunkFormat
 		}
 
 		return 0, sig, 0, nil
